@@ -4,6 +4,13 @@
 use vh::layermodel::mk_context_existing;
 fn main() {
     let a: Vec<String> = std::env::args().collect();
+    if a.get(1).map(|s| s.as_str()) == Some("--hashorder") {
+        // iteration order of a std HashMap<String, _> holding the given keys under the current
+        // hash seed (C20 seed search); built the way libcnb builds its maps (collect from a Vec)
+        let m: std::collections::HashMap<String, std::path::PathBuf> = a[2..].iter().map(|k| (k.clone(), std::path::PathBuf::from(k))).collect();
+        println!("{}", m.keys().cloned().collect::<Vec<_>>().join(" "));
+        return;
+    }
     let root = std::path::PathBuf::from(&a[1]);
     let script: serde_json::Value = serde_json::from_str(&std::fs::read_to_string(&a[2]).expect("script")).expect("json");
     let ctx = mk_context_existing(&root);
